@@ -95,7 +95,9 @@ bool compare_results(const std::string& a, const std::string& b, std::string& wh
     const std::string& p = va[i].first;
     double tol;
     if (under(p, "coordinates/adjusted") || under(p, "coordinates/fixed")) tol = coord_tol;                  // metres
-    else if (under(p, "std-error-ellipses") || under(p, "cov-mat")) tol = 1e-3 * std::max(1.0, std::fabs(x)); // mm / mm^2, printed with few digits
+    // (with an a posteriori m0 they scale with the sum of squares, which gets 5e-3 below: with instrument heights, where
+    //  the adjusted positions of two rounds may differ by gama-local's own stopping rule, they get the same)
+    else if (under(p, "std-error-ellipses") || under(p, "cov-mat")) tol = (g_has_dh ? 5e-3 : 1e-3) * std::max(1.0, std::fabs(x)); // mm / mm^2, printed with few digits
     else if (under(p, "orientation-shifts")) tol = 2e-5;                                                     // gon
     else if (under(p, "observations/")) {
       std::string leaf = p.substr(p.rfind('/') + 1);
